@@ -383,11 +383,11 @@ pub fn def(tier: Tier) -> PropertyDef {
 		checks.push(enumerate(&format!("special_grid_{part:02}"), move |_, _| Box::new((0..11usize).map(move |h| GridCase { o: part, h })), run_grid));
 	}
 	for i in 0..4 {
-		checks.push(pt(&format!("random_candles_{i}"), tier.pick(20000, 100000), rand_candles(), run_rand));
+		checks.push(pt(&format!("random_candles_{i}"), tier.pick(20000, 1000000), rand_candles(), run_rand));
 	}
 	checks.push(enumerate("text_roundtrip", |_, _| Box::new(std::iter::once(0u8)), run_text_roundtrip));
 	for i in 0..4 {
-		checks.push(pt(&format!("text_{i}"), tier.pick(80000, 400000), text_strategy(), run_text));
+		checks.push(pt(&format!("text_{i}"), tier.pick(80000, 4000000), text_strategy(), run_text));
 	}
 	let _ = fail_unused;
 	checks.extend(crate::fuzz_entry::corpus_checks("C18"));
